@@ -110,6 +110,9 @@ func updatePath(sdsPush bool, how string) string {
 }
 
 type tcase struct {
+	// a race case: upds = [SDS rotation, config update] run by two goroutines following Sched
+	Race  bool       `json:"race"`
+	Sched []string   `json:"sched"`
 	Side  string     `json:"side"`
 	Ctxs  []ctxCase  `json:"ctxs"`
 	Upds  []updCase  `json:"upds"`
@@ -168,6 +171,8 @@ type group struct {
 	idx    int
 	ctxs   []ctxCase
 	upds   []updCase
+	race  bool
+	sched []string
 	// variant decides how ready contexts are backed: "seed" (seeded mix), "static", "sds".
 	// A group with an update history is run as "static" and as "sds", so that every update path is taken under every seed.
 	variant string
@@ -428,9 +433,24 @@ func (lg *liveGroup) apply(u updCase, reconfigure func() error) (vh.Ev, error) {
 		err := reconfigure()
 		return vh.Ev{"ev": "upd", "pos": 0, "field": u.Field, "val": lg.insp, "how": howOf(u), "path": "config-update", "kind": "listener"}, err
 	}
+	if _, err := lg.mutate(u); err != nil {
+		return nil, err
+	}
+	var err error
+	push := lg.isPush(u)
+	if push {
+		lg.pushSecret(u)
+	} else {
+		err = reconfigure()
+	}
+	return lg.updEvent(u, updatePath(push, u.How)), err
+}
+
+// mutate applies the update to the abstract context list (what is configured from now on).
+func (lg *liveGroup) mutate(u updCase) (int, error) {
 	i := u.Pos - 1
 	if i < 0 || i >= len(lg.cur) {
-		return nil, fmt.Errorf("update position %d out of range", u.Pos)
+		return 0, fmt.Errorf("update position %d out of range", u.Pos)
 	}
 	c := lg.cur[i]
 	var err error
@@ -454,7 +474,7 @@ func (lg *liveGroup) apply(u updCase, reconfigure func() error) (vh.Ev, error) {
 		err = fmt.Errorf("unknown update field %q", u.Field)
 	}
 	if err != nil {
-		return nil, err
+		return 0, err
 	}
 	if u.How == "newpath" && u.Field == "ca" {
 		c.CaPath++
@@ -463,21 +483,54 @@ func (lg *liveGroup) apply(u updCase, reconfigure func() error) (vh.Ev, error) {
 		c.CertPath++
 	}
 	lg.cur[i] = c
-	push := lg.kinds[i] == "sds-ready" && (u.Field == "ca" || u.Field == "names")
-	path := updatePath(push, u.How)
+	return i, nil
+}
+
+// isPush: the update reaches an SDS backed context as a secret push on the running provider.
+func (lg *liveGroup) isPush(u updCase) bool {
+	return u.Pos >= 1 && lg.kinds[u.Pos-1] == "sds-ready" && (u.Field == "ca" || u.Field == "names")
+}
+
+func (lg *liveGroup) pushSecret(u updCase) {
+	c := lg.cur[u.Pos-1]
 	val, cert := lg.sdsNames(u.Pos)
-	switch {
-	case lg.kinds[i] == "sds-ready" && u.Field == "ca":
+	if u.Field == "ca" {
 		lg.mock.SetSecret(val, &types.SdsSecret{Name: val, ValidationPEM: lg.p.caPEM(c.Ca)})
-	case lg.kinds[i] == "sds-ready" && u.Field == "names":
-		certPEM, keyPEM, _ := lg.p.serverLeaf(u.Pos, sortedNames(c.Names))
-		lg.mock.SetSecret(cert, &types.SdsSecret{Name: cert, CertificatePEM: certPEM, PrivateKeyPEM: keyPEM})
-	default:
-		err = reconfigure()
+		return
 	}
+	certPEM, keyPEM, _ := lg.p.serverLeaf(u.Pos, sortedNames(c.Names))
+	lg.mock.SetSecret(cert, &types.SdsSecret{Name: cert, CertificatePEM: certPEM, PrivateKeyPEM: keyPEM})
+}
+
+func (lg *liveGroup) updEvent(u updCase, path string) vh.Ev {
 	var v interface{}
 	json.Unmarshal(u.Val, &v)
-	return vh.Ev{"ev": "upd", "pos": u.Pos, "field": u.Field, "val": v, "how": howOf(u), "path": path, "kind": lg.kinds[i]}, err
+	return vh.Ev{"ev": "upd", "pos": u.Pos, "field": u.Field, "val": v, "how": howOf(u), "path": path, "kind": lg.kinds[u.Pos-1]}
+}
+
+// raceUpdates runs upds[0] (an SDS secret rotation) and upds[1] (a tls config update of the listener) in two
+// goroutines in the order asked for by the schedule. Both are configured when it returns.
+func (lg *liveGroup) raceUpdates(reconfigure func() error) ([]vh.Ev, error) {
+	rot, cu := lg.g.upds[0], lg.g.upds[1]
+	if !lg.isPush(rot) {
+		return nil, fmt.Errorf("race: %+v is not an SDS push", rot)
+	}
+	for _, u := range lg.g.upds {
+		if _, err := lg.mutate(u); err != nil {
+			return nil, err
+		}
+	}
+	defer raceLock(rot.Field)()
+	followed, err := runSchedule(lg.g.sched, map[string]func() error{
+		"R": func() error { lg.pushSecret(rot); return nil },
+		"U": reconfigure,
+	})
+	e1 := lg.updEvent(rot, "sds-push:racing-config-update")
+	e2 := lg.updEvent(cu, "config-update:racing-sds-rotation")
+	for _, e := range []vh.Ev{e1, e2} {
+		e["sched"], e["followed"] = lg.g.sched, followed
+	}
+	return []vh.Ev{e1, e2}, err
 }
 
 func deliver(mock *sdsMock, later []pendingSecret) {
@@ -497,15 +550,24 @@ func (w *worker) runGroup(g *group, mock *sdsMock) error {
 	// the secrets of the ready SDS contexts arrive after the listener was built
 	deliver(mock, secrets)
 	g.events = append(g.events, vh.Ev{"ev": "mgr", "ctxs": jctx, "insp": g.insp, "g": g.idx, "via": "direct", "variant": g.variant})
+	// what server/handler.go does on a listener update: a new manager from the updated config, same listener name
+	reconfigure := func() error {
+		m, err := mtls.NewTLSServerContextManager(lg.listener())
+		if err == nil {
+			mng = m
+		}
+		return err
+	}
+	if g.race {
+		evs, err := lg.raceUpdates(reconfigure)
+		if err != nil {
+			return fmt.Errorf("group %d race %v: %v", g.idx, g.sched, err)
+		}
+		g.events = append(g.events, evs...)
+		return w.hellos(g, mng, "")
+	}
 	for _, u := range g.upds {
-		ev, err := lg.apply(u, func() error {
-			// what server/handler.go does on a listener update: a new manager from the updated config, same listener name
-			m, err := mtls.NewTLSServerContextManager(lg.listener())
-			if err == nil {
-				mng = m
-			}
-			return err
-		})
+		ev, err := lg.apply(u, reconfigure)
 		if err != nil {
 			return fmt.Errorf("group %d update %+v: %v", g.idx, u, err)
 		}
@@ -545,6 +607,7 @@ type upLive struct {
 	variant   string
 	name      string
 	val, cert string
+	certGen   int
 }
 
 type upJob struct {
@@ -612,35 +675,93 @@ func (u *upLive) cfgEvent(c upCfg) vh.Ev {
 	return vh.Ev{"sn": nonNil(c.Sn), "skip": c.Skip, "ca": c.Ca, "casrc": u.casrc(), "capath": c.CaPath}
 }
 
-// apply pushes one update; rebuild realises a config update with the new tls config.
-func (u *upLive) apply(upd updCase, rebuild func(*v2.TLSConfig) error) (vh.Ev, error) {
-	var err error
+// mutate applies the update to the abstract cluster tls config.
+func (u *upLive) mutate(upd updCase) error {
 	switch upd.Field {
 	case "ca":
-		err = json.Unmarshal(upd.Val, &u.cur.Ca)
 		if upd.How == "newpath" {
 			u.cur.CaPath++
 		}
+		return json.Unmarshal(upd.Val, &u.cur.Ca)
 	case "sn":
 		u.cur.Sn = nil
-		err = json.Unmarshal(upd.Val, &u.cur.Sn)
+		return json.Unmarshal(upd.Val, &u.cur.Sn)
 	case "skip":
-		err = json.Unmarshal(upd.Val, &u.cur.Skip)
-	default:
-		err = fmt.Errorf("unknown upstream update field %q", upd.Field)
+		return json.Unmarshal(upd.Val, &u.cur.Skip)
+	case "cert": // the cluster's own certificate is rotated: no field of the policy changes
+		u.certGen++
+		return nil
 	}
-	if err != nil {
-		return nil, err
-	}
-	push := u.variant == "sds" && upd.Field == "ca"
-	if push {
+	return fmt.Errorf("unknown upstream update field %q", upd.Field)
+}
+
+func (u *upLive) isPush(upd updCase) bool {
+	return u.variant == "sds" && (upd.Field == "ca" || upd.Field == "cert")
+}
+
+func (u *upLive) pushSecret(upd updCase) {
+	if upd.Field == "ca" {
 		u.mock.SetSecret(u.val, &types.SdsSecret{Name: u.val, ValidationPEM: u.p.caPEM(u.cur.Ca)})
-	} else if err = rebuild(u.tlsConfig()); err != nil {
-		return nil, err
+		return
 	}
+	certPEM, keyPEM, _ := u.p.serverLeaf(0, []string{fmt.Sprintf("mosn-client-%d", u.certGen)})
+	u.mock.SetSecret(u.cert, &types.SdsSecret{Name: u.cert, CertificatePEM: certPEM, PrivateKeyPEM: keyPEM})
+}
+
+func updJSON(upd updCase, path string) vh.Ev {
 	var v interface{}
 	json.Unmarshal(upd.Val, &v)
-	return vh.Ev{"pos": 0, "field": upd.Field, "val": v, "how": howOf(upd), "path": updatePath(push, upd.How)}, nil
+	return vh.Ev{"pos": 0, "field": upd.Field, "val": v, "how": howOf(upd), "path": path}
+}
+
+// apply pushes one update; rebuild realises a config update with the new tls config.
+func (u *upLive) apply(upd updCase, rebuild func(*v2.TLSConfig) error) (vh.Ev, error) {
+	if err := u.mutate(upd); err != nil {
+		return nil, err
+	}
+	push := u.isPush(upd)
+	if push {
+		u.pushSecret(upd)
+	} else if err := rebuild(u.tlsConfig()); err != nil {
+		return nil, err
+	}
+	return updJSON(upd, updatePath(push, upd.How)), nil
+}
+
+// history pushes the whole update history of the case: sequentially, or - a race case - the SDS rotation upds[0] and the
+// cluster tls config update upds[1] in two goroutines following the schedule.
+func (u *upLive) history(tc tcase, rebuild func(*v2.TLSConfig) error) ([]vh.Ev, error) {
+	upds := []vh.Ev{}
+	if !tc.Race {
+		for _, upd := range tc.Upds {
+			ev, err := u.apply(upd, rebuild)
+			if err != nil {
+				return nil, err
+			}
+			upds = append(upds, ev)
+		}
+		return upds, nil
+	}
+	rot, cu := tc.Upds[0], tc.Upds[1]
+	if !u.isPush(rot) {
+		return nil, fmt.Errorf("race: %+v is not an SDS push", rot)
+	}
+	for _, upd := range tc.Upds {
+		if err := u.mutate(upd); err != nil {
+			return nil, err
+		}
+	}
+	cfg := u.tlsConfig()
+	defer raceLock(rot.Field)()
+	followed, err := runSchedule(tc.Sched, map[string]func() error{
+		"R": func() error { u.pushSecret(rot); return nil },
+		"U": func() error { return rebuild(cfg) },
+	})
+	e1, e2 := updJSON(rot, "sds-push:racing-config-update"), updJSON(cu, "config-update:racing-sds-rotation")
+	for _, e := range []vh.Ev{e1, e2} {
+		e["sched"], e["followed"] = tc.Sched, followed
+	}
+	return []vh.Ev{e1, e2}, err
 }
 
 // upManager builds the real clientContextManager of an upstream case and pushes the case's update history into it.
@@ -653,19 +774,15 @@ func upManager(p *pki, mock *sdsMock, j upJob, idx, attempt int) (types.TLSClien
 		return nil, nil, nil, err
 	}
 	u.deliver()
-	upds := []vh.Ev{}
-	for _, upd := range j.tc.Upds {
-		ev, err := u.apply(upd, func(cfg *v2.TLSConfig) error {
-			m, err := mtls.NewTLSClientContextManager(name, cfg) // what a cluster update does
-			if err == nil {
-				mng = m
-			}
-			return err
-		})
-		if err != nil {
-			return nil, nil, nil, err
+	upds, err := u.history(j.tc, func(cfg *v2.TLSConfig) error {
+		m, err := mtls.NewTLSClientContextManager(name, cfg) // what a cluster update does
+		if err == nil {
+			mng = m
 		}
-		upds = append(upds, ev)
+		return err
+	})
+	if err != nil {
+		return nil, nil, nil, err
 	}
 	return mng, cfg0, upds, nil
 }
@@ -772,14 +889,24 @@ func main() {
 	var ups []tcase
 	err := vh.ReadCases(*cases, func(raw json.RawMessage) error {
 		var tc tcase
-		if err := json.Unmarshal(raw, &tc); err != nil {
+		var wrapped struct {
+			C     *tcase   `json:"c"`
+			Sched []string `json:"sched"`
+		}
+		if err := json.Unmarshal(raw, &wrapped); err == nil && wrapped.C != nil { // a race case with its schedule
+			tc = *wrapped.C
+			tc.Sched = wrapped.Sched
+			if !tc.Race || len(tc.Upds) != 2 || len(tc.Sched) != 4 {
+				return fmt.Errorf("malformed race case %s", raw)
+			}
+		} else if err := json.Unmarshal(raw, &tc); err != nil {
 			return err
 		}
 		if tc.Side == "up" {
 			ups = append(ups, tc)
 			return nil
 		}
-		kb, _ := json.Marshal([]interface{}{tc.Ctxs, tc.Insp, tc.Upds})
+		kb, _ := json.Marshal([]interface{}{tc.Ctxs, tc.Insp, tc.Upds, tc.Sched})
 		variants := []string{"seed"}
 		if len(tc.Ctxs) > 0 && tc.Ctxs[0].CaSrc != "" {
 			variants = []string{"explicit"} // the case says where the material of every context comes from
@@ -789,7 +916,7 @@ func main() {
 		for _, v := range variants {
 			g := groups[string(kb)+v]
 			if g == nil {
-				g = &group{idx: len(order), ctxs: tc.Ctxs, upds: tc.Upds, variant: v, insp: tc.Insp}
+				g = &group{idx: len(order), ctxs: tc.Ctxs, upds: tc.Upds, variant: v, insp: tc.Insp, race: tc.Race, sched: tc.Sched}
 				groups[string(kb)+v] = g
 				order = append(order, g)
 			}
@@ -841,18 +968,30 @@ func main() {
 		}
 		nh += len(g.hellos)
 	}
-	nu := 0
-	for i, j := range upJobs(ups) {
-		var ev vh.Ev
-		var err error
-		for attempt := 0; attempt < 3; attempt++ {
-			ev, err = runUp(p, mock, j, i, attempt)
-			if err == nil {
-				break
+	jobs := upJobs(ups)
+	upEvs := make([]vh.Ev, len(jobs))
+	upErr := make([]error, len(jobs))
+	var uwg sync.WaitGroup
+	sem := make(chan struct{}, *par)
+	for i, j := range jobs {
+		uwg.Add(1)
+		sem <- struct{}{}
+		go func(i int, j upJob) {
+			defer uwg.Done()
+			defer func() { <-sem }()
+			for attempt := 0; attempt < 3; attempt++ {
+				upEvs[i], upErr[i] = runUp(p, mock, j, i, attempt)
+				if upErr[i] == nil {
+					break
+				}
 			}
-		}
-		vh.Must(err, "upstream case")
-		tr.Emit(ev)
+		}(i, j)
+	}
+	uwg.Wait()
+	nu := 0
+	for i := range jobs {
+		vh.Must(upErr[i], "upstream case")
+		tr.Emit(upEvs[i])
 		nu++
 	}
 	tr.Close()
